@@ -94,6 +94,29 @@ def molOp (n : Nat) (const : Rat) (h : List (List Rat)) (g : List (List (List (L
         (List.range n).flatMap fun s => (List.range 2).flatMap fun σ => (List.range 2).map fun τ =>
           ([(2 * p + σ, 1), (2 * q + τ, 1), (2 * r + τ, 0), (2 * s + σ, 0)], (⟨m4 g p q r s / 2, 0⟩ : GQ)))
 
+/-- the one-body matrix of the spin-orbital Hamiltonian: `T[2p+σ, 2q+τ] = δ_στ h_pq` -/
+def spinOne (n : Nat) (h : List (List Rat)) : List (List Rat) :=
+  (List.range (2 * n)).map fun i => (List.range (2 * n)).map fun j => if i % 2 = j % 2 then m2 h (i / 2) (j / 2) else 0
+
+/-- the density-density matrix of Coulomb-type integrals: `V[(pσ), (qτ)] = ½ g_pqqp` off the diagonal -/
+def spinCoulomb (n : Nat) (g : List (List (List (List Rat)))) : List (List Rat) :=
+  (List.range (2 * n)).map fun i => (List.range (2 * n)).map fun j =>
+    if i = j then 0 else m4 g (i / 2) (j / 2) (j / 2) (i / 2) / 2
+
+/-! ### `cost_estimator`: the selection among the feasible layouts -/
+
+/-- statement of the selection loop: `none` iff no candidate is feasible; otherwise the returned candidate is feasible,
+its `qubits × rounds` is minimal among the feasible ones and strictly smaller than that of every earlier feasible one -/
+def selectOk (cands : List (Nat × Nat)) (feasible : List Bool) (res : Option (Nat × Nat × Nat)) : Bool :=
+  let n := min cands.length feasible.length
+  let cost := fun j => (cands.getD j (0, 0)).1 * (cands.getD j (0, 0)).2
+  match res with
+  | none => (List.range n).all fun j => feasible.getD j false == false
+  | some (i, q, r) =>
+    decide (i < n) && (cands.getD i (0, 0) == (q, r)) && feasible.getD i false &&
+    (List.range n).all fun j => feasible.getD j false == false ||
+      (decide (q * r ≤ cost j) && (decide (i ≤ j) || decide (q * r < cost j)))
+
 /-! ### operators in Pauli form -/
 
 /-- sum of `|c|` over the strings of a qubit operator stored as (Pauli string, real coefficient) pairs; the identity
